@@ -559,6 +559,7 @@ def mc_run(w):
     saved = MC.__dict__.get("datetime")
     MC.datetime = CT.fake_datetime_module(now_units, scale)
     prm = w["params"]
+    CT.drive.alive.clear()
     P = lambda name, i: prm.get(f"{name}{i}", 0)
     quiescent = False
     try:
@@ -579,6 +580,11 @@ def mc_run(w):
             if "max_delay" in w:
                 mgr.back_off_connect_error.max_delay = w["max_delay"]
         trace, transports, task, mgr = CT.drive(MC, loop, P, w["K"], StopScenario, sched, now_units, configure)
+        close_first = CT.drive.last_close
+        if w.get("second"):
+            p2 = w["second"]
+            CT.drive(MC, loop, lambda name, i: p2.get(f"{name}{i}", 0), 50, StopScenario, lambda fn: None, now_units, None)
+            CT.drive.last_close = close_first
         try:
             if w.get("S") == 0:
                 CT.drive.last_close()
